@@ -325,8 +325,10 @@ extern "C" void h_digest_reply()
     w.q->onDigestReply();
     noAuthEffect(w, "C16 DIGEST-MD5: the digest reply alone never authenticates, binds or routes");
     const unsigned K_FAIL = sasl2 ? K_SASL2_FAILURE : K_SASL_FAILURE, K_CHAL = sasl2 ? K_SASL2_CHALLENGE : K_SASL_CHALLENGE;
-    if (err == QXmppPasswordReply::TemporaryError) {
-        vp_assert(srv->m_step == 1 && failedAndClosed(K_FAIL), "C16 DIGEST-MD5: a temporary checker failure ends the exchange");
+    // the reply is an ARBITRARY (error, digest) pair: a checker may deliver a digest together with an error
+    if (err != QXmppPasswordReply::NoError) {
+        vp_assert(srv->m_step == 1, "C16 DIGEST-MD5: the exchange never advances on a checker reply that reports an error (unknown user / lookup failure), whatever digest comes with it");
+        vp_assert(failedAndClosed(K_FAIL), "C16 DIGEST-MD5: a checker error ends the exchange with <failure/> and the stream is closed");
     } else {
         const bool ok = msg.qop == QByteArray("auth") && !stored.isEmpty() && msg.response == refDigest(msg.uri, stored, nonce, msg.cnonce, msg.nc);
         vp_assert((srv->m_step == 2) == ok && (srv->m_step == 1) == !ok, "C16 DIGEST-MD5: the exchange advances iff the response equals the RFC 2831 digest over the stored secret and the server nonce");
@@ -356,6 +358,26 @@ struct StoreChecker final : QXmppPasswordChecker {
     QXmppPasswordReply::Error getPassword(const QXmppPasswordRequest &r, QString &password) override { n++; askedUser = r.username(); askedDomain = r.domain(); if (err == QXmppPasswordReply::NoError) password = secret; return err; }
     bool hasGetPassword() const override { return true; }
 };
+// (11b) default QXmppPasswordChecker::getDigest on top of getPassword(): digest = MD5(user:domain:password) iff the lookup succeeded;
+//       otherwise the error is passed on and NO digest is delivered
+extern "C" void h_digest_default()
+{
+    vpC16Warm();
+    StoreChecker c; unsigned e = vp_u8(); vp_assume(e <= 2); c.err = QXmppPasswordReply::Error(e);
+    c.secret = QString::fromLatin1(exactBytes(vp_case_u(0, 3), true));                 // stored password: 0..2 ASCII units (one instance per length)
+    QXmppPasswordRequest req; const QString u = QString::fromLatin1(exactBytes(1, true)), dom = QString::fromLatin1(exactBytes(1, true));
+    req.setUsername(u); req.setDomain(dom); req.setPassword(vpSymString(1));
+    QXmppPasswordReply *reply = c.QXmppPasswordChecker::getDigest(req);
+    vp_assert(c.n == 1 && eq(c.askedUser, u) && eq(c.askedDomain, dom), "C16 default getDigest looks up exactly the requested user and domain");
+    vp_assert(reply->error() == c.err, "C16 default getDigest reports the outcome of the lookup");
+    if (e == QXmppPasswordReply::NoError) {
+        const QByteArray ref = md5(cat3(cat3(u, u':', dom), u':', c.secret).toUtf8());   // RFC 2831: H(username ":" realm ":" passwd), same oracle
+        vp_assert(reply->digest() == ref, "C16 default getDigest delivers MD5(user:domain:password) of the stored password");
+    } else {
+        vp_assert(reply->digest().isEmpty(), "C16 default getDigest delivers NO digest when the lookup failed (unknown user / temporary error)");
+    }
+    vp_assert(!reply->isFinished(), "C16 the reply finishes later (asynchronously)");
+}
 extern "C" void h_checker_default()
 {
     vpC16Warm();
